@@ -11,7 +11,110 @@ pub struct C10;
 
 pub const SYMS: &[&str] = &["a", " ", "\n", "\r", "é", "€", "😀", "\u{c}", "\u{2028}"];
 
+/// Line patterns of the long texts (the line table is a rope: texts longer than one of its chunks).
+pub const LONG_LINES: &[&str] = &["aé😀 €\n", "ab\r\n", "😀😀😀😀\r", "aaaaaaaaaaaaaaaaaaaaaaaaaaaaaaaaaaaaaaaaaaaaaaaaaaaaaaaaaaaaaaaaaaaaaaaaaaaaaaaaaaaaaaaaaaaaaaaaaaa€\n", "a€", "abcdefgh\n"];
+pub const LONG_LEADS: &[&str] = &["", "é", "😀\n", "// é\r\n"];
+
+/// lead + first pattern up to half of `n` bytes + second pattern up to `n` bytes (whole characters).
+pub fn long_text(lead: usize, first: usize, second: usize, n: usize) -> String {
+    let mut t = String::from(LONG_LEADS[lead]);
+    let fill = |t: &mut String, pat: &str, upto: usize| {
+        'outer: loop {
+            for c in pat.chars() {
+                if t.len() + c.len_utf8() > upto {
+                    break 'outer;
+                }
+                t.push(c);
+            }
+        }
+    };
+    fill(&mut t, LONG_LINES[first], n / 2);
+    fill(&mut t, LONG_LINES[second], n);
+    t
+}
+
+/// Total lengths around one, two and four rope chunks, in steps that move every line across the chunk borders.
+pub fn long_lengths(tier: Tier) -> Vec<usize> {
+    let step = match tier {
+        Tier::Quick => 13,
+        Tier::Thorough => 3,
+    };
+    let mut v: Vec<usize> = Vec::new();
+    for (lo, hi) in [(900, 1120), (1900, 2120), (3950, 4100)] {
+        v.extend((lo..hi).step_by(step));
+    }
+    v
+}
+
+/// The checks of `check` for a long text: every boundary offset both ways, every position of every line,
+/// the ranges from the start of the text, from the start of the line and from the previous boundary.
+fn check_long(text: &str) -> Vec<(&'static str, String)> {
+    let mut out: Vec<(&'static str, String)> = Vec::new();
+    let reference = RefLines::new(text);
+    let li = match guard(|| LineIndex::new(text)) {
+        Ok(li) => li,
+        Err(p) => return vec![("panic", format!("LineIndex::new: {} at {}", p.message, p.location))],
+    };
+    let push = |out: &mut Vec<(&'static str, String)>, c: &'static str, d: String| {
+        if !out.iter().any(|(cc, _)| *cc == c) {
+            out.push((c, d));
+        }
+    };
+    let offs: Vec<usize> = text.char_indices().map(|(o, _)| o).chain(std::iter::once(text.len())).filter(|o| !RefLines::inside_crlf(text, *o)).collect();
+    let mut prev = 0usize;
+    for &o in &offs {
+        let want = reference.position(text, o);
+        match guard(|| lsp::to_proto::position(&li, TextSize::from(o as u32))) {
+            Err(p) => push(&mut out, "to-position-panic", format!("offset {o}: {} at {}", p.message, p.location)),
+            Ok(got) => {
+                if (got.line, got.character) != want {
+                    push(&mut out, "to-position", format!("offset {o}: expected line {} column {}, got line {} column {}", want.0, want.1, got.line, got.character));
+                }
+            }
+        }
+        match guard(|| lsp::from_proto::position(&li, Position::new(want.0, want.1))) {
+            Err(p) => push(&mut out, "from-position-panic", format!("line {} column {}: {} at {}", want.0, want.1, p.message, p.location)),
+            Ok(back) => {
+                if usize::from(back) != o {
+                    push(&mut out, "from-position", format!("line {} column {}: expected offset {o}, got {}", want.0, want.1, usize::from(back)));
+                }
+            }
+        }
+        let line_start = reference.lines[want.0 as usize].0;
+        for a in [0, line_start, prev] {
+            let r = syntax::parser::TextRange::new(TextSize::from(a as u32), TextSize::from(o as u32));
+            let (ws, we) = (reference.position(text, a), want);
+            match guard(|| lsp::to_proto::range(&li, r)) {
+                Err(p) => push(&mut out, "to-range-panic", format!("range {a}..{o}: {} at {}", p.message, p.location)),
+                Ok(got) => {
+                    if (got.start.line, got.start.character, got.end.line, got.end.character) != (ws.0, ws.1, we.0, we.1) {
+                        push(&mut out, "to-range", format!("range {a}..{o}: expected {ws:?}..{we:?}, got {:?}..{:?}", (got.start.line, got.start.character), (got.end.line, got.end.character)));
+                    }
+                }
+            }
+        }
+        prev = o;
+    }
+    // one column past every line end
+    for line in 0..reference.lines.len() {
+        let len16 = reference.line_len_utf16(text, line);
+        let Some(want) = reference.offset(text, line as u32, len16 + 1) else { continue };
+        match guard(|| lsp::from_proto::position(&li, Position::new(line as u32, len16 + 1))) {
+            Err(p) => push(&mut out, "from-position-panic", format!("line {line} column {}: {} at {}", len16 + 1, p.message, p.location)),
+            Ok(got) => {
+                if usize::from(got) != want {
+                    push(&mut out, "column-past-line-end", format!("line {line} column {}: expected offset {want}, got {}", len16 + 1, usize::from(got)));
+                }
+            }
+        }
+    }
+    out
+}
+
 fn check(text: &str) -> Vec<(&'static str, String)> {
+    if text.len() > 64 {
+        return check_long(text);
+    }
     let mut out: Vec<(&'static str, String)> = Vec::new();
     let reference = RefLines::new(text);
     let li = match guard(|| LineIndex::new(text)) {
@@ -108,8 +211,13 @@ impl Engine for C10 {
     fn rule(&self, tier: Tier) -> String {
         format!(
             "every string of length <= {} over {{a, space, LF, CR, é (2 bytes), € (3 bytes), 😀 (4 bytes, 2 UTF-16 units), FF, U+2028}} x every character-boundary offset (except inside a CRLF pair) \
-             x every (line, column) with line <= last line and column <= line length + 1 (except columns inside a surrogate pair). non-trivial = the string contains a line terminator or a non-ASCII character; strings distinct by construction.",
-            tier.pick(5, 7)
+             x every (line, column) with line <= last line and column <= line length + 1 (except columns inside a surrogate pair). non-trivial = the string contains a line terminator or a non-ASCII character; strings distinct by construction. \
+             Long texts (the line table is a rope of chunks of about 1 KB): {} leads x {} x {} line patterns (first half, second half; LF / CRLF / CR / no terminator, 1- to 4-byte characters, a 100-byte line) x {} total lengths around 1, 2 and 4 KB: every boundary offset both ways, one column past every line end, the ranges from the text start, the line start and the previous boundary.",
+            tier.pick(5, 7),
+            LONG_LEADS.len(),
+            LONG_LINES.len(),
+            LONG_LINES.len(),
+            long_lengths(tier).len()
         )
     }
 
@@ -123,6 +231,28 @@ impl Engine for C10 {
     fn explore(&self, tier: Tier, ctx: &mut Ctx) {
         let mut text = String::new();
         let (shard, n) = (ctx.shard, ctx.nshards);
+        // long texts first: lead x first-half pattern x second-half pattern x total length
+        'long: for lead in 0..LONG_LEADS.len() {
+            for first in 0..LONG_LINES.len() {
+                for second in 0..LONG_LINES.len() {
+                    for &len in &long_lengths(tier) {
+                        if !ctx.mine() {
+                            continue;
+                        }
+                        let t = long_text(lead, first, second, len);
+                        ctx.trace(|| json!({ "text": &t }));
+                        ctx.case(true);
+                        ctx.add("long_texts", 1);
+                        for f in check(&t).into_iter().map(|(c, d)| Failure::new(c, format!("a text of {} bytes: lead {:?}, lines {:?} then {:?}", t.len(), LONG_LEADS[lead], LONG_LINES[first], LONG_LINES[second]), d, json!({ "text": &t }))) {
+                            ctx.fail(f);
+                        }
+                        if ctx.expired() {
+                            break 'long;
+                        }
+                    }
+                }
+            }
+        }
         words::for_each_word(SYMS.len(), tier.pick(5, 7), shard, n, |_, w| {
             text.clear();
             for &s in w {
